@@ -1054,7 +1054,7 @@ def run_multi(ctx, exe, cases, cnt, var, cov, dist):
             ctx.disagreement("pcp harness", "multi: harness failed: %s %s" % (str(f)[:200], str(crash)[-300:]), cj)
             continue
         if f["to"] != "0" or f["sig"] == "998":
-            ctx.offender("timeout", "receivers of %d connections in one process: not finished after 8 s" % len(c["conns"]), cj)
+            ctx.offender("timeout", "receivers of %d connections in one process: not finished after 30 s" % len(c["conns"]), cj)
             continue
         if f["san"] != "0" or f["sig"] != "0" or f["rc"] != "0":
             ctx.offender("crash", "receivers in one process: rc=%s sig=%s sanitizer=%s: %s" % (
